@@ -42,7 +42,9 @@ let () = iter_lines (fun l ->
   | ["N"] -> pr "%d\n" (int_of_nat nSLOTS)
   | [] -> pr "\n"
   | init :: ops ->
-      let lb = lbuf_saved (lbuf_edit lbuf_make (Some (bytes_of_hex init)) O O) true in
+      (* "@" = the buffer of an editor started without a file name: lbuf_make; lbuf_saved(lb, 0)  (DirtyDefs.ebuf_new) *)
+      let lb = if init = "@" then ebuf_new.lb
+               else lbuf_saved (lbuf_edit lbuf_make (Some (bytes_of_hex init)) O O) true in
       let lb = ref lb in
       List.iteri (fun i o ->
         let rc =
